@@ -31,6 +31,7 @@ MIN_REACH = {
     "pipelines_reaped": {"quick": 120, "thorough": 2000},
     "crops_also_reaped_as_a_table": {"quick": 8, "thorough": 120},
     "reaps_told_to_wait_on_ten_and_more_batches": {"quick": 4, "thorough": 80},
+    "pipelines_while_another_thread_draws_random_numbers": {"quick": 15, "thorough": 300},
     "fresh_process_steps": {"quick": 15, "thorough": 300},
     "batches_grown": {"quick": 450, "thorough": 10000},
     "positions_compared": {"quick": 700, "thorough": 25000},
@@ -95,6 +96,7 @@ def cases(ctx):
         c = _gen(rng, fresh=(i % (n // nfresh) == 0))
         c["table_first"] = i % 2 == 1
         c["reap_waits"] = i % 3 == 0
+        c["other_thread_draws"] = i % 4 == 2 and not c["fresh"]
         yield c
     # loky workers inside grow / across batches (slow to start, sampled)
     for i in range(ctx.pick(8, 60)):
@@ -111,6 +113,29 @@ def cases(ctx):
 
 
 def run_case(ctx, case):
+    """In some in-process pipelines ANOTHER THREAD of the calling program draws numbers from the process-wide `random`
+    generator at moments of its own choosing (injected deterministically: right after each time the library seeds that
+    generator, a growing number of draws): where a setting was sown and where it is reaped must not depend on that."""
+    if not case.get("other_thread_draws"):
+        return _run_case(ctx, case)
+    import random as _random
+    real_seed = _random.seed
+    n = [0]
+
+    def seed_then_the_other_thread_draws(*a, **k):
+        real_seed(*a, **k)
+        n[0] += 1
+        for _ in range(n[0]):
+            _random.random()
+    _random.seed = seed_then_the_other_thread_draws
+    ctx.count("pipelines_while_another_thread_draws_random_numbers")
+    try:
+        return _run_case(ctx, case)
+    finally:
+        _random.seed = real_seed
+
+
+def _run_case(ctx, case):
     import xyzpy
     w = case["w"]
     rng = ctx.rng("plan", case["pseed"])
